@@ -34,4 +34,20 @@ CHECKS = {
              "timeout": {"quick": 900, "thorough": 3400}},
         ],
     },
+    "C02": {
+        "level": "exploration",
+        "rule": ("model-based stateful histories in which every transaction draws its ending (commit / error after step k), may contain failing "
+                 "inserts, deletes and key operations; oracles: (a) reference model after every transaction, (b) metamorphic twin collection that "
+                 "runs the same history WITHOUT the rolled-back transactions - answers of every step incl. the offsets of all later inserts, full dumps, "
+                 "Count and key lookups must be identical, (c) a recording commit.Logger must receive nothing for a rolled-back transaction, "
+                 "(d) in-flight observation at a drawn point inside the body: a second transaction's full Range dump, Count, a Snapshot+Restore and the "
+                 "transaction's own reads must all show the pre-transaction state. non-trivial = a rollback of a transaction that had buffered a "
+                 "successful insert, delete or key write, or an in-flight observation of a transaction with >=1 buffered change; distinct = hash of the trace"),
+        "assumptions": ["in-flight observation happens from the same goroutine between two steps of the body (no latch is held there)",
+                        "generator exclusions driven by known findings are counted in coverage.excluded_by_known_finding"],
+        "tests": [
+            {"run": "^TestC02$", "checks": {"quick": 250, "thorough": 2500}, "shards": {"quick": 1, "thorough": 16},
+             "timeout": {"quick": 900, "thorough": 3400}},
+        ],
+    },
 }
